@@ -34,7 +34,7 @@ type Family struct {
 	N func(tier string) int
 	// Run executes one case. It must derive every choice from r and i.
 	Run func(c *Ctx, r *Rand, i int)
-	// Timeout is the per-case watchdog (0 = 120 s). Firing marks a hang *candidate*, which the
+	// Timeout is the per-case watchdog (0 = 60 s). Firing marks a hang *candidate*, which the
 	// driver replays alone before deciding anything.
 	Timeout time.Duration
 	// Isolated families run every case in its own fresh process.
@@ -372,7 +372,7 @@ func RunWorker(spec *Spec, tier string, seed uint64, shard, nshards int, outDir,
 		n := f.N(tier)
 		lim := f.Timeout
 		if lim == 0 {
-			lim = 120 * time.Second
+			lim = 60 * time.Second
 		}
 		for i := 0; i < n; i++ {
 			if onlyFamily != "" {
